@@ -6,6 +6,8 @@ pub mod c05;
 pub mod c06;
 pub mod c07;
 pub mod c08;
+pub mod c09;
+pub mod c10;
 pub mod hist;
 
 use crate::evidence::KnownFindings;
@@ -25,6 +27,8 @@ pub fn run(cfg: &RunCfg) -> i32 {
         "C06" => c06::run(cfg),
         "C07" => c07::run(cfg),
         "C08" => c08::run(cfg),
+        "C09" => c09::run(cfg),
+        "C10" => c10::run(cfg),
         other => {
             eprintln!("unknown property {other}");
             2
@@ -71,6 +75,12 @@ pub fn replay(prop: &str, file: &str) -> i32 {
             "C02" => serde_json::from_value::<c02::Case>(case.clone())
                 .map_err(|e| Failure::new("replay.parse", "a C02 case", e.to_string()))
                 .and_then(|c| c02::check_case(&c).map(|_| ())),
+            "C09" => serde_json::from_value::<c09::Case>(case.clone())
+                .map_err(|e| Failure::new("replay.parse", "a C09 case", e.to_string()))
+                .and_then(|c| c09::check_case(&c, &strict).map(|_| ())),
+            "C10" => serde_json::from_value::<c10::Case>(case.clone())
+                .map_err(|e| Failure::new("replay.parse", "a C10 case", e.to_string()))
+                .and_then(|c| c10::check_case(&c, &strict).map(|_| ())),
             "C04" => serde_json::from_value::<c04::Pair>(case.clone())
                 .map_err(|e| Failure::new("replay.parse", "a pair", e.to_string()))
                 .and_then(|p| c04::run_pair(&p, &strict).map(|_| ())),
